@@ -3,6 +3,31 @@
  * scripted total order of operations under a baton; stdin: one command per line, stdout: one result line
  * per command (see lib/verif/props/c14.py).  Addresses are printed as (slab ordinal in alloc_list order,
  * byte offset in the slab).  Every live block carries a canary over its full REQUESTED size. */
+/* lock events: the two FASTLOCK macros are interposed so that every acquire / release executed by an operation is
+ * logged (thread-local); the sequence must equal the one of the micro-step model (Mpool/Micro.v). */
+#ifdef HAVE_CONFIG_H
+# include "config.h"
+#endif
+#include <pthread.h>
+#include <stddef.h>
+#include <stdlib.h>
+#include <qthread/qthread-int.h>
+#include "qt_envariables.h"
+#include "qt_mpool.h"
+#include "qt_atomics.h"
+static inline void c14_real_lock(QTHREAD_FASTLOCK_TYPE *l) { QTHREAD_FASTLOCK_LOCK(l); }
+static inline void c14_real_unlock(QTHREAD_FASTLOCK_TYPE *l) { QTHREAD_FASTLOCK_UNLOCK(l); }
+static __thread struct { void *l; char k; } c14_ev[16];
+static __thread int c14_nev;
+static volatile int c14_ev_on = 1;
+static inline void c14_log(void *l, char k)
+{
+    if (c14_ev_on && c14_nev < 16) { c14_ev[c14_nev].l = l; c14_ev[c14_nev].k = k; c14_nev++; }
+}
+#undef QTHREAD_FASTLOCK_LOCK
+#undef QTHREAD_FASTLOCK_UNLOCK
+#define QTHREAD_FASTLOCK_LOCK(x)   do { c14_real_lock(x); c14_log((x), 'L'); } while (0)
+#define QTHREAD_FASTLOCK_UNLOCK(x) do { c14_log((x), 'U'); c14_real_unlock(x); } while (0)
 #include "mpool.c"
 #include "qthread/qpool.h"
 #include "qthread/qthread.h"
@@ -100,7 +125,7 @@ static long canary_check(const uint8_t *p, size_t sz, uint64_t serial)
 }
 
 /* ---------------------------------------------------------------- baton */
-typedef struct { int kind; int pid; void *mem; void *ret; volatile int pending; } job_t;
+typedef struct { int kind; int pid; void *mem; void *ret; volatile int pending; char evs[40]; } job_t;
 static job_t           jobs[MAXT];
 static pthread_mutex_t mu = PTHREAD_MUTEX_INITIALIZER;
 static pthread_cond_t  cv = PTHREAD_COND_INITIALIZER;
@@ -114,6 +139,7 @@ static void *worker(void *arg)
         while (!jobs[me].pending) pthread_cond_wait(&cv, &mu);
         pthread_mutex_unlock(&mu);
         job_t *j = &jobs[me];
+        c14_nev = 0;
         if (j->kind == 'A') {
             j->ret = use_qpool[j->pid] ? qpool_alloc(pools[j->pid]) : qt_mpool_alloc(pools[j->pid]);
         } else if (j->kind == 'F') {
@@ -122,6 +148,15 @@ static void *worker(void *arg)
             return NULL;
         }
         tcs[j->pid][me] = pthread_getspecific(pools[j->pid]->threadlocal_cache);
+        {
+            int k, n = 0;
+            for (k = 0; k < c14_nev; k++) {
+                j->evs[n++] = c14_ev[k].k;
+                j->evs[n++] = (c14_ev[k].l == (void *)&pools[j->pid]->reuse_lock) ? 'r' : (c14_ev[k].l == (void *)&pools[j->pid]->pool_lock) ? 'p' : '?';
+            }
+            if (n == 0) j->evs[n++] = '-';
+            j->evs[n] = 0;
+        }
         pthread_mutex_lock(&mu);
         j->pending = 0;
         pthread_cond_broadcast(&cv);
@@ -271,12 +306,12 @@ int main(void)
             blks[nblk].p = p; blks[nblk].pid = (int)a; blks[nblk].live = (p != NULL);
             if (p && s >= 0 && off + sz <= pools[a]->alloc_size) canary_write(p, sz, nblk);
             nblk++;
-            printf("A %ld %zu %s\n", s, off, why);
+            printf("A %ld %zu %s %s\n", s, off, why, jobs[b].evs);
         } else if (line[0] == 'F' && sscanf(line + 1, "%lu %lu %lu", &a, &b, &c) == 3 && a < MAXP && b < MAXT && pools[a] && c < nblk && blks[c].live) {
             long bad = canary_check(blks[c].p, req_size[a], c);
             blks[c].live = 0;
             run_on((int)b, 'F', (int)a, blks[c].p, NULL);
-            if (bad >= 0) printf("F canary-damaged-at-byte-%ld\n", bad); else printf("F ok\n");
+            if (bad >= 0) printf("F canary-damaged-at-byte-%ld %s\n", bad, jobs[b].evs); else printf("F ok %s\n", jobs[b].evs);
         } else if (line[0] == 'S' && sscanf(line + 1, "%lu %lu", &a, &b) == 2 && a < MAXP && pools[a]) {
             printf("S %zu |", slab_count(pools[a]));
             pr_chain(pools[a], pools[a]->reuse_pool);
@@ -303,6 +338,7 @@ int main(void)
             pthread_t th[16];
             size_t    total, dups, bad;
             alarm(120);
+            c14_ev_on = 0;
             st.pid = (int)a; st.nops = (int)c; st.hold = (int)d; st.seed = e;
             st_serial = st_allocs = st_frees = st_errs = st_xfer = 0; st_go = 0; st_msg[0] = 0;
             memset((void *)slots, 0, sizeof slots);
@@ -320,6 +356,7 @@ int main(void)
             static aligned_t rets[64];
             size_t    total, dups, bad;
             alarm(120);
+            c14_ev_on = 0;
             if (!inited) { if (qthread_initialize() != 0) { printf("R init-failed\n"); continue; } inited = 1; }
             st.pid = (int)a; st.nops = (int)c; st.hold = (int)d; st.seed = e;
             st_serial = st_allocs = st_frees = st_errs = st_xfer = 0; st_go = 1; st_rt = 1; st_msg[0] = 0;
